@@ -145,3 +145,42 @@ func init() {
 		},
 	})
 }
+
+func init() {
+	register(&Property{
+		ID:    "C12",
+		Units: []string{"fasthttp.(*perIPConnCounter)", "fasthttp.(*perIPConn)", "fasthttp.wrapPerIPConn", "fasthttp.acquirePerIPConn", "fasthttp.getUint32IP", "fasthttp.(*Server).tryAcquireConcurrency", "fasthttp.(*Server).releaseConcurrency", "fasthttp.(*Server).writeFastError"},
+		Runs: []Run{
+			{Pkg: "fasthttp", Func: "vhC12PerIP", Quick: map[string]int{"steps": 5}, Thorough: map[string]int{"steps": 7}},
+			{Pkg: "fasthttp", Func: "vhC12ConcurrencyStep"},
+		},
+		Assume: []string{
+			"sequential histories only: up to `steps` open/close operations over two client IPv4 addresses with MaxConnsPerIP ∈ {1,2}, each wrapped handle closed by its owner (an immediate second Close included) and then dropped; tryAcquireConcurrency as a one-step contract from an arbitrary counter ≤ limit",
+			"concurrent interleavings of accepts, the serve loop's own acquire/release pairing (serveConnCounted, hijack release) and GetOpenConnectionsCount are outside this check; fmt.Fprintf is an approximating stub (only the status line written by formatStatusLine is inspected)",
+		},
+	})
+	register(&Property{
+		ID:    "C13",
+		Units: []string{"fasthttp.(*workerPool)"},
+		Runs: []Run{
+			{Pkg: "fasthttp", Func: "vhC13WorkerPool", Quick: map[string]int{"conns": 3}, Thorough: map[string]int{"conns": 4}, NoNative: true},
+		},
+		Assume: []string{
+			"goroutines, channels, mutexes and timers run on the engine's cooperative scheduler with virtual time: switch points are blocking operations, runtime.Gosched and the vYield schedule choice inside the worker function and after each Serve; `conns` connections, MaxWorkersCount ∈ {1,2}, each handler returning nil or errHijacked",
+			"sampled paths are not re-run natively: the schedule choices of the cooperative scheduler cannot be imposed on the real runtime (counterexamples would still be replayed, and reported as unconfirmed if the real scheduler does not reproduce them)",
+			"preemption between arbitrary instructions (data-race level interleavings) and Stop racing with in-flight Serve calls are outside this check",
+		},
+	})
+	register(&Property{
+		ID:    "C40",
+		Units: []string{"fasthttp.(*LBClient)", "fasthttp.(*lbClient)"},
+		Runs: []Run{
+			{Pkg: "fasthttp", Func: "vhC40Route", Quick: map[string]int{"clients": 3}, Thorough: map[string]int{"clients": 5}},
+			{Pkg: "fasthttp", Func: "vhC40NoClients"},
+		},
+		Assume: []string{
+			"one LBClient call from an arbitrary state satisfying the invariant penalty ≤ maxPenalty (inductive step), up to `clients` fake BalancingClients with symbolic pending counts, totals, penalties and outcomes; time.AfterFunc/time.Sleep run on the engine's virtual clock",
+			"concurrent calls (the 'once concurrent calls settle' clause) are outside this check",
+		},
+	})
+}
